@@ -317,6 +317,105 @@ pub fn run(ctx: &mut Ctx) {
     }
     ctx.rep.note("maporder", &format!("{:016x}", crate::rng::hash_str(&battery)));
 
+    // ---- hash-order: programs whose evaluation walks a hash map -------------------------------------------
+    // Every map instance has its own hasher state, so iteration order differs between instances, executions
+    // and threads. Nothing observable may depend on it: comparisons of maps holding failing or differing
+    // entries, macros over maps whose body fails for some keys, renderings, membership.
+    let nh = ctx.n(6_000, 80_000);
+    ctx.stage("hash-order", nh, true, |_idx, rng, rep| {
+        const KEYS: [&str; 6] = ["a", "b", "c", "dd", "e", "zz"];
+        // an entry value as source text: constants, values that differ between the two sides, failures
+        fn entry(rng: &mut Rng, side: usize) -> String {
+            match rng.below(9) {
+                0 | 1 => "1".to_string(),
+                2 => format!("{}", side + 1),               // differs between the sides
+                3 => "1 / z".to_string(),                   // fails at run time (z = 0)
+                4 => "1 / 0".to_string(),                   // fails, foldable
+                5 => "unb".to_string(),                     // unbound name
+                6 => format!("[{}, one]", side + 1),
+                7 => "{'k': one}".to_string(),
+                _ => "one".to_string(),                     // bound, equal on both sides
+            }
+        }
+        let nkeys = 2 + rng.below(4);
+        let mut keys: Vec<&str> = KEYS.to_vec();
+        for i in (1..keys.len()).rev() {
+            keys.swap(i, rng.below(i + 1));
+        }
+        let keys = &keys[..nkeys];
+        let side = |rng: &mut Rng, which: usize, drop_one: bool| -> String {
+            let mut parts: Vec<String> = keys.iter().map(|k| format!("'{}': {}", k, entry(rng, which))).collect();
+            if drop_one && rng.chance(1, 4) {
+                parts.pop();
+                parts.push(format!("'other': {}", entry(rng, which)));
+            }
+            format!("{{{}}}", parts.join(", "))
+        };
+        let m1 = side(rng, 0, false);
+        let m2 = side(rng, 1, true);
+        let src = match rng.below(14) {
+            0 | 1 => format!("{} == {}", m1, m2),
+            2 => format!("{} != {}", m1, m2),
+            3 => format!("[{}] == [{}]", m1, m2),
+            4 => format!("{} in [{}, {}]", m1, m2, m1),
+            5 => format!("{{'k': {}}} == {{'k': {}}}", m1, m2),
+            6 => format!("vm == {}", m2),
+            7 => "vm.map(k, 1 / vm[k])".to_string(),
+            8 => "vm.exists(k, 1 / vm[k] > 0)".to_string(),
+            9 => "vm.all(k, 1 / vm[k] > 0)".to_string(),
+            10 => "vm.filter(k, 1 / vm[k] > 0)".to_string(),
+            11 => format!("string({}) + f'{{vm}}'", m1.replace("1 / z", "2").replace("1 / 0", "3").replace("unb", "4")),
+            12 => "vm.map(k, k + string(vm[k])).reduce(acc, x, acc + x, '')".to_string(),
+            _ => format!("coalesce({} == {}, 'failed')", m1, m2),
+        };
+        // bound map: some entries zero (the bodies divide by them), rebuilt for every execution
+        let vm_entries: Vec<(String, i64)> = keys.iter().map(|k| (k.to_string(), if rng.chance(1, 3) { 0 } else { rng.range(1, 3) })).collect();
+        let mk_binds = || -> Vec<(String, CelValue)> {
+            let mut m = std::collections::HashMap::new();
+            for (k, v) in &vm_entries {
+                m.insert(k.clone(), CelValue::from_int(*v));
+            }
+            vec![("z".to_string(), 0.into()), ("one".to_string(), 1.into()), ("vm".to_string(), CelValue::from_map(m))]
+        };
+        let first = mon::run1(&src, &mk_binds());
+        rep.count(&format!("hash_order_first/{}", first.class().split(':').next().unwrap_or("?")));
+        let mut differs: Option<Out> = None;
+        // fresh compile + fresh bindings each time
+        for _ in 0..12 {
+            let again = mon::run1(&src, &mk_binds());
+            rep.eval();
+            if again.canon() != first.canon() {
+                differs = Some(again);
+                break;
+            }
+        }
+        // one compiled program, one context, executed repeatedly with rebuilt bindings
+        if differs.is_none() {
+            if let Ok(p) = mon::compile(&src) {
+                let mut c = CelContext::new();
+                c.add_program("main", p);
+                for _ in 0..12 {
+                    let again = mon::run_in(&mut c, &mk_binds());
+                    rep.eval();
+                    if again.canon() != first.canon() {
+                        differs = Some(again);
+                        break;
+                    }
+                }
+            }
+        }
+        rep.count("hash_order_programs");
+        if let Some(d) = differs {
+            rep.viol(
+                "repetition|hash-order",
+                &format!("`{}` gave {} and then {} with equal bindings (vm = {:?})", src, first.show(), d.show(), vm_entries),
+                json!({"source": src, "vm": format!("{:?}", vm_entries)}),
+            );
+        }
+        rep.distinct(&src, true);
+        rep.sample(|| json!({"stage":"hash-order","source":mon::clip(&src, 200),"outcome":mon::clip(&first.show(), 100)}));
+    });
+
     // ---- threads: 16 threads, cloned contexts, own bindings with equal values --------------------------
     let iters = ctx.n(100, 1000);
     ctx.stage("threads", 1, false, |_idx, _rng, rep| {
